@@ -12,7 +12,7 @@ import Rbacx.Model.Value
   name (hypotheses `tmp ≠ target`, `fsGet fs tmp = none` of the theorems), durability (no fsync in the
   code; outside the property).
 -/
-namespace Rbacx
+namespace Rbacx.FileSrc
 
 abbrev Path := String
 /-- file content: bytes -/
@@ -171,7 +171,7 @@ def Fault.pred : Fault → Fault
 def Fault.isCrash : Fault → Bool | .crashAfter _ _ => true | _ => false
 def Fault.isRaise : Fault → Bool | .raiseAt _ _ => true | _ => false
 
-inductive Outcome where
+inductive AWOutcome where
   | ok | raised | crashed
 deriving DecidableEq, Repr
 
@@ -195,7 +195,7 @@ def runClean (e : AWEnv) : AWState → List AWStep → AWState
     | (st', true) => st'
     | (st', false) => runClean e st' rest
 
-def runSteps (e : AWEnv) : AWState → List AWStep → Fault → AWState × Outcome
+def runSteps (e : AWEnv) : AWState → List AWStep → Fault → AWState × AWOutcome
   | st, [], _ => (st, .ok)
   | st, s :: _, .crashAfter 0 k => (partialOp e st k s.op, .crashed)
   | st, s :: rest, .raiseAt 0 k => (runClean e (partialOp e st k s.op) (cleanupSteps s.region rest), .raised)
@@ -231,4 +231,126 @@ def WellShaped (prog : List AWStep) : Bool :=
 /-- the whole data is written, once -/
 def WritesAllOnce (prog : List AWStep) : Bool := decide (writeIdxs prog = [0])
 
-end Rbacx
+/-! ## Part 2: `FilePolicySource` -/
+
+inductive Format where
+  | json | yaml
+deriving DecidableEq, Repr
+
+/-- `_detect_format(filename=path)`: YAML for a (case-insensitive) `.yaml` / `.yml` suffix, JSON otherwise
+    (`.json` and everything else).  ASCII lower-casing: the model's paths are ASCII. -/
+def formatOfPath (path : String) : Format :=
+  let fn := PyVal.asciiLower path
+  if PyVal.strEndsWith fn ".yaml" || PyVal.strEndsWith fn ".yml" then .yaml else .json
+
+structure SrcCfg (Tag Doc : Type) where
+  /-- `hashlib.sha256(content).hexdigest()` – abstract; theorems that need it assume injectivity -/
+  sha : Content → Tag
+  /-- parser oracle: decode + `json.loads` / `yaml.safe_load` (+ mapping check), errors included in `Doc` -/
+  parse : Format → Content → Doc
+  includeMtime : Bool
+  path : String
+
+/-- `_cached_stat_sig`, `_cached_sha` -/
+structure SrcState (Tag : Type) where
+  cachedSig : Option (Nat × Nat)
+  cachedSha : Option Tag
+
+def SrcState.empty {Tag : Type} : SrcState Tag := ⟨none, none⟩
+
+/-- an etag: the content hash, and the mtime when `include_mtime_in_etag` (`f"{sha}:{mtime_ns}"`) -/
+abbrev ETag (Tag : Type) := Tag × Option Nat
+
+variable {Tag Doc : Type}
+
+/-- `_ensure_content_sha`: stat; missing ⇒ clear the cache; re-hash iff the signature differs from the
+    cached one or no hash is cached -/
+def ensureSha (cfg : SrcCfg Tag Doc) (disk : Option File) (st : SrcState Tag) :
+    SrcState Tag × Option (Tag × (Nat × Nat)) :=
+  match disk with
+  | none => (⟨none, none⟩, none)
+  | some f =>
+    match st.cachedSig, st.cachedSha with
+    | some s, some h =>
+      if s = f.sig then (st, some (h, f.sig))
+      else (⟨some f.sig, some (cfg.sha f.content)⟩, some (cfg.sha f.content, f.sig))
+    | _, _ => (⟨some f.sig, some (cfg.sha f.content)⟩, some (cfg.sha f.content, f.sig))
+
+def etag (cfg : SrcCfg Tag Doc) (disk : Option File) (st : SrcState Tag) : SrcState Tag × Option (ETag Tag) :=
+  match ensureSha cfg disk st with
+  | (st', none) => (st', none)
+  | (st', some (h, sig)) => (st', some (h, if cfg.includeMtime then some sig.2 else none))
+
+/-- `load()`: read and parse by extension; `none` = FileNotFoundError.  The source's cache is not involved. -/
+def load (cfg : SrcCfg Tag Doc) (disk : Option File) : Option Doc :=
+  disk.map fun f => cfg.parse (formatOfPath cfg.path) f.content
+
+/-- what is done to / asked of the one policy file -/
+inductive FOp where
+  | write (c : Content) (mtime : Nat)
+  /-- `os.utime`: new mtime, same content (nothing if the file is missing) -/
+  | touch (mtime : Nat)
+  | delete
+  | etag
+  | load
+deriving DecidableEq, Repr
+
+def FOp.isRead : FOp → Bool
+  | .etag => true
+  | .load => true
+  | _ => false
+
+inductive Obs (Tag Doc : Type) where
+  | unit
+  | etag (t : Option (ETag Tag))
+  | load (d : Option Doc)
+
+/-- the disk after one operation -/
+def applyMod (disk : Option File) : FOp → Option File
+  | .write c m => some ⟨c, m⟩
+  | .touch m => disk.map fun f => ⟨f.content, m⟩
+  | .delete => none
+  | .etag => disk
+  | .load => disk
+
+structure World (Tag : Type) where
+  disk : Option File
+  src : SrcState Tag
+
+def step (cfg : SrcCfg Tag Doc) (w : World Tag) : FOp → World Tag × Obs Tag Doc
+  | .etag => (⟨w.disk, (etag cfg w.disk w.src).1⟩, .etag (etag cfg w.disk w.src).2)
+  | .load => (w, .load (load cfg w.disk))
+  | op => (⟨applyMod w.disk op, w.src⟩, .unit)
+
+def runWorld (cfg : SrcCfg Tag Doc) : World Tag → List FOp → World Tag
+  | w, [] => w
+  | w, op :: ops => runWorld cfg (step cfg w op).1 ops
+
+/-- per operation: the disk it saw / left, and what it returned -/
+def trace (cfg : SrcCfg Tag Doc) : World Tag → List FOp → List (Option File × Obs Tag Doc)
+  | _, [] => []
+  | w, op :: ops => ((step cfg w op).1.disk, (step cfg w op).2) :: trace cfg (step cfg w op).1 ops
+
+/-- the disk states that `etag()` calls of a history observe, in order -/
+def etagDisks : Option File → List FOp → List (Option File)
+  | _, [] => []
+  | d, .etag :: ops => d :: etagDisks d ops
+  | d, op :: ops => etagDisks (applyMod d op) ops
+
+/-- The property's own proviso, for a sequence of observed disk states: between one tag observation
+    and the next, content never changes while both size and mtime stay the same.  (`prev` = the file
+    the previous observation saw; `none` = no observation yet / the file was missing.) -/
+def Proviso : Option File → List (Option File) → Prop
+  | _, [] => True
+  | prev, cur :: rest =>
+    (∀ f f', prev = some f → cur = some f' → f.content ≠ f'.content → f.size ≠ f'.size ∨ f.mtime ≠ f'.mtime)
+      ∧ Proviso cur rest
+
+/-- the tag that describes a disk state truthfully -/
+def trueTag (cfg : SrcCfg Tag Doc) (d : Option File) : Option (ETag Tag) :=
+  d.map fun f => (cfg.sha f.content, if cfg.includeMtime then some f.mtime else none)
+
+end Rbacx.FileSrc
+
+/-- the step type under the name `Generated.lean` uses -/
+abbrev Rbacx.AWStep := Rbacx.FileSrc.AWStep
